@@ -398,3 +398,23 @@ def load_fn(manifest):
     out.append("static void load_debug(void) " + dbg)
     manifest.append({"unit": "Processor::load", "dropped": ["dumpContents printing block", "string contents (names -> ids)", "stream error states"]})
     return "\n".join(out) + "\n"
+
+
+def load_debug_parts(manifest):
+    """the symbol-table reader of Processor::load: statements before the symbol loop and the loop body.
+    Structure text-matched (strings loop already abstracted to FILE_READ_STRINGS)."""
+    t = load_fn(manifest)
+    i = t.index("static void load_debug(void) ")
+    body = t[i + len("static void load_debug(void) "):]
+    m = re.search(r"for \(size_t i=0; i<numSymbols; i\+\+\) \{", body)
+    if not m:
+        raise ExtractionError("load(): symbol loop not found")
+    lb = m.end() - 1
+    rb = match_close(body, lb)
+    loop_body = body[lb:rb + 1]
+    skeleton = " ".join(strip_comments(body[:m.start()] + "LOOP;" + body[rb + 1:]).split())
+    want = "{ uint32_t numStrings; FILE_READ_U32(&numStrings); FILE_READ_STRINGS(numStrings); uint32_t numSymbols; FILE_READ_U32(&numSymbols); LOOP; }"
+    if skeleton != want:
+        raise ExtractionError("load(): debug-table reader differs from the structure the round-trip lemma was written for:\n found %s\n expected %s" % (skeleton, want))
+    manifest.append({"unit": "Processor::load debug reader structure", "text": skeleton})
+    return "static void dbg_load_symbol_body(void) " + loop_body + "\n"
